@@ -17,6 +17,7 @@ import (
 
 func init() {
 	props["c01"] = func(cfg runCfg) error { return runProfile(cfg, "c01") }
+	props["c04"] = func(cfg runCfg) error { return runProfile(cfg, "c04") }
 	props["c02"] = func(cfg runCfg) error { return runProfile(cfg, "c02") }
 	props["c03"] = func(cfg runCfg) error { return runProfile(cfg, "c03") }
 	props["c05"] = func(cfg runCfg) error { return runProfile(cfg, "c05") }
@@ -88,12 +89,14 @@ func genPerm(r *rand.Rand, s *ast.Schema, def *ast.Definition, depth int) brambl
 func runProfile(cfg runCfg, prof string) error {
 	r := rand.New(rand.NewSource(cfg.seed))
 	sum := &summary{Property: strings.ToUpper(prof), Seed: cfg.seed, Features: map[string]int{}, CaseInputs: map[string]interface{}{}}
-	sum.Rule = "fixtures movies/single/tricky x random data graph (nulls, duplicates, entities unknown to a service) x schema-directed random operation (depth 2-6, aliases incl. recurring keys, inline/named fragments, abstract types, __typename, arguments, variables)"
+	sum.Rule = "fixtures movies/single/tricky/shared x random data graph (nulls, duplicates, entities unknown to a service) x schema-directed random operation (depth 2-6, aliases incl. recurring keys, inline/named fragments, abstract types, __typename, arguments, variables)"
 	switch prof {
 	case "c02", "c05":
 		sum.Rule += " x fault assignment (7 fault kinds on a root request, a lookup type, or a whole service; several at once) and, for c02, non-conforming data (null at non-null, resolver errors); each case also records the fault-free answer"
 	case "c03":
 		sum.Rule += " x random permission tree over the merged schema (allow-all, list, nested, empty-leaf forms, abstract types, namespaces)"
+	case "c04":
+		sum.Rule += " with @skip/@include on ~25% of nodes in half of the cases (literal and variable conditions, both on one node)"
 	case "c15":
 		sum.Rule += " with @skip/@include on ~25% of nodes (literal and variable conditions, both on one node, on fragments and spreads)"
 	case "c16":
@@ -124,7 +127,7 @@ func runProfile(cfg runCfg, prof string) error {
 	for i := 0; i < cfg.n; i++ {
 		// every case has its own PRNG stream: case <prof>-<seed>-<i> is reproducible on its own
 		r = rand.New(rand.NewSource(cfg.seed*1000003 + int64(i)*7919 + int64(len(prof))))
-		env := envs[[]int{0, 0, 0, 1, 2, 2}[r.Intn(6)]]
+		env := envs[[]int{0, 0, 0, 1, 2, 2, 3, 3}[r.Intn(8)]]
 		if prof == "c16" {
 			env = envs[0]
 			if r.Intn(3) == 0 {
@@ -142,7 +145,7 @@ func runProfile(cfg runCfg, prof string) error {
 			do.plantBad = true
 			conforming = false
 		}
-		big := (prof == "c02" || prof == "c05" || prof == "c01") && env.fx.Name == "movies" && r.Intn(8) == 0
+		big := (prof == "c02" || prof == "c05" || prof == "c01" || prof == "c04") && env.fx.Name == "movies" && r.Intn(8) == 0
 		if big {
 			// which ids share a batch is up to Go's map order, so only whole-document outcomes may depend on it:
 			// conforming data (no per-entity resolver errors), faults per document
@@ -159,6 +162,8 @@ func runProfile(cfg runCfg, prof string) error {
 			qo.recurAlias = false
 		case "c15":
 			qo.directives = true
+		case "c04":
+			qo.directives = r.Intn(2) == 0 // "only fields that survived @skip/@include"
 		case "c16":
 			qo.mutation = true
 			qo.maxDepth = 1 + r.Intn(4)
@@ -300,6 +305,11 @@ func runProfile(cfg runCfg, prof string) error {
 			continue // keep case files small
 		}
 		w.add(name, emitE2ECase(env, run, opts))
+		foreign := foreignAbstractCondition(env.fed, doc)
+		sum.GoOracle = append(sum.GoOracle, oracleResult{Case: name, Component: "guard.no_foreign_abstract_condition", OK: !foreign})
+		if foreign {
+			sum.Features["foreign_abstract_condition"]++
+		}
 		sum.CaseInputs[name] = in
 		if prof == "c15" && len(faults) == 0 {
 			// the same document once more on the same gateway with other condition values: what is included is decided per
@@ -316,6 +326,7 @@ func runProfile(cfg runCfg, prof string) error {
 				if run2, err := env.run(q, v2, hdr); err == nil && len(run2.Resp.Body) < 60000 {
 					n2 := name + "-again"
 					w.add(n2, emitE2ECase(env, run2, opts))
+					sum.GoOracle = append(sum.GoOracle, oracleResult{Case: n2, Component: "guard.no_foreign_abstract_condition", OK: !foreign})
 					in2 := map[string]interface{}{}
 					for k, v := range in {
 						in2[k] = v
@@ -345,7 +356,7 @@ func runProfile(cfg runCfg, prof string) error {
 		if !conforming {
 			sum.Features["nonconforming_data"]++
 		}
-		if strings.Contains(fv, "svcs=1 ") && !strings.Contains(q, "...") && len(faults) == 0 && prof == "c01" {
+		if strings.Contains(fv, "svcs=1 ") && !strings.Contains(q, "...") && len(faults) == 0 && (prof == "c01" || prof == "c04") {
 			continue
 		}
 		distinct[fv+q+fmt.Sprint(faults)] = true
@@ -469,4 +480,58 @@ func mutationOracle(env *e2eEnv, run *e2eRun, name string, faulty bool) []oracle
 	add("prop.c16.owner_only", okOwner, detail)
 	add("prop.c16.operation_kinds", okKinds, "")
 	return out
+}
+
+// foreignAbstractCondition: the operation has a fragment whose type condition is an interface or union that some service
+// declaring the enclosing type does not declare (the recorded finding KF-foreign-abstract-condition: the fragment is
+// forwarded to that service verbatim).  A function of the input only.
+func foreignAbstractCondition(fed *federation, doc *ast.QueryDocument) bool {
+	declares := func(svc, typ string) bool {
+		for _, s := range fed.TypeSvcs[typ] {
+			if s == svc {
+				return true
+			}
+		}
+		return false
+	}
+	found := false
+	seen := map[string]bool{}
+	var walk func(parent string, ss ast.SelectionSet)
+	cond := func(parent, tc string, ss ast.SelectionSet) {
+		if tc == "" {
+			tc = parent
+		} else if d := fed.Mono.Types[tc]; d != nil && d.IsAbstractType() && !isRootName(parent) && !fed.Namespace[parent] {
+			for _, s := range fed.TypeSvcs[parent] {
+				if !declares(s, tc) {
+					found = true
+				}
+			}
+		}
+		walk(tc, ss)
+	}
+	walk = func(parent string, ss ast.SelectionSet) {
+		for _, sel := range ss {
+			switch x := sel.(type) {
+			case *ast.Field:
+				if x.Definition != nil && x.Definition.Type != nil {
+					walk(x.Definition.Type.Name(), x.SelectionSet)
+				}
+			case *ast.InlineFragment:
+				cond(parent, x.TypeCondition, x.SelectionSet)
+			case *ast.FragmentSpread:
+				if x.Definition != nil && !seen[parent+">"+x.Name] {
+					seen[parent+">"+x.Name] = true
+					cond(parent, x.Definition.TypeCondition, x.Definition.SelectionSet)
+				}
+			}
+		}
+	}
+	for _, op := range doc.Operations {
+		root := "Query"
+		if op.Operation == ast.Mutation {
+			root = "Mutation"
+		}
+		walk(root, op.SelectionSet)
+	}
+	return found
 }
